@@ -359,7 +359,9 @@ func TestC03(t *testing.T) {
 				// a backquote is not the ")" of a case pattern, of "f()" or of a subshell
 				"`case x in a` b;; esac`", "`f(` { a; }`", "`(a` b", "x`case y in (a|b` c;; esac`",
 				// a here-document whose substitution ends on the line of the operator has no body
-				"$(cat <<E)", "`cat <<-E`", "$( (cat <<E) )", "x$(a; cat <<E)y", "\"$(cat <<'E')\"", "$(cat <<A <<B)", "${x:-$(cat <<E)}"}).Draw(rt, "badword")
+				"$(cat <<E)", "`cat <<-E`", "$( (cat <<E) )", "x$(a; cat <<E)y", "\"$(cat <<'E')\"", "$(cat <<A <<B)", "${x:-$(cat <<E)}",
+				// one closing parenthesis too many inside an arithmetic expansion
+				"$(( 1 ) ))", "x$(( (1 ) ) ))y", "\"$(( 1 ) + 2 ))\"", "$(( ) ))"}).Draw(rt, "badword")
 			src := base + " " + bad + "\n"
 			starts := append([]int{}, r.Starts...)
 			for o := len(base) + 1; o < len(src); o++ {
@@ -381,6 +383,10 @@ func TestC03(t *testing.T) {
 			if rapid.IntRange(0, 3).Draw(rt, "reserved_behind_redir") == 0 {
 				// behind the redirection of a compound command a reserved word is an ordinary word
 				bad = rapid.SampledFrom([]string{"{ { a; } >f }", "if { a; } >f then b; fi", "if a; then { b; } >f fi", "while { a; } >f do b; done", "while a; do { b; } 2>&1 done", "( a ) >f then", "for i in a; do { b; } <f done", "case x in a) { b; } >f esac", "if a; then b; else { c; } >f fi", "{ if a; then b; fi >f }", "{ (a) >f }", "until { a; } >f 2>&1 do b; done", "{ { a; } <<E }\nE\n", "if a; then { b; } >f elif c; then d; fi"}).Draw(rt, "reserved_behind_redir_src")
+			}
+			if rapid.IntRange(0, 5).Draw(rt, "arith_paren") == 0 {
+				// one closing parenthesis too many inside the arithmetic command
+				bad = rapid.SampledFrom([]string{"(( 1 ) ))", "if (( x = 1 ) )); then a; fi", "(( ( 1 ) ) ))", "while (( i ) )); do a; done", "(( ) ))"}).Draw(rt, "arith_paren_src")
 			}
 			sep := "; "
 			if lastTop.Kind == gen.KOp {
